@@ -1,5 +1,5 @@
-"""Unit ASTORE — runtime/runtime_evaluator.cpp: the ArrayAssignmentExpression branch of RuntimeEvaluator::eval
-(`a[i] = v`).  C12: an index outside the array - negative or too large, computed at run time - is a located Runtime error,
+"""Unit ASTORE — runtime/runtime_evaluator.cpp: the IndexExpression (`a[i]`) and ArrayAssignmentExpression (`a[i] = v`)
+branches of RuntimeEvaluator::eval.  C12: an index outside the array - negative or too large, computed at run time - is a located Runtime error,
 never an access outside the vector; C07: arrays have value semantics and bounds checks - the store changes exactly element
 i of the variable's array (converted as documented) and nothing else."""
 import re, os
@@ -15,9 +15,13 @@ FUNCS = []
 AST_FILTER = ['RuntimeEvaluator::eval', 'bloch::runtime::Value']
 SHIM = 'astore.h'
 THROWING = {'array_store'}
+LOAD_ONLY = [('qubitArray', 'int', 'QubitArray')]
+PAYLOAD = {'intArray': ('Int', 'intValue'), 'longArray': ('Long', 'longValue'), 'floatArray': ('Float', 'floatValue'), 'bitArray': ('Bit', 'bitValue'), 'boolArray': ('Boolean', 'boolValue'),
+           'stringArray': ('String', 'stringValue'), 'charArray': ('Char', 'charValue'), 'qubitArray': ('Qubit', 'qubit')}
 ARRS = [('intArray', 'int', 'IntArray'), ('longArray', 'long', 'LongArray'), ('floatArray', 'double', 'FloatArray'), ('bitArray', 'int', 'BitArray'),
         ('boolArray', '_Bool', 'BooleanArray'), ('stringArray', 'bl_str', 'StringArray'), ('charArray', 'char', 'CharArray')]
-DROPS = ['region array_store: the ArrayAssignmentExpression branch of eval from `Value arr = lookup(var->name);` to its end (the check that the target is a variable comes before it); the node\'s line / column become parameters, its sub-expressions opaque ids',
+DROPS = ['region array_load: the IndexExpression branch of eval (`a[i]`), whole; the Value constructors {tag, int, float, bit} are a model that sets exactly those members',
+         'region array_store: the ArrayAssignmentExpression branch of eval from `Value arr = lookup(var->name);` to its end (the check that the target is a variable comes before it); the node\'s line / column become parameters, its sub-expressions opaque ids',
          'Value keeps type, the scalar payloads and the seven element vectors that can be stored into; each vector is an inline array of at most AMAXS = 4 elements with its size (operator[] asserts the index is inside the vector: that assertion is the memory-safety obligation); strings are interned ids; diagnostic text is dropped',
          'lookup(name) returns an arbitrary well-formed Value (kept as ghost g_arr0); eval(sub-expression) an arbitrary Value or a Runtime error; assign(name, arr) records what is stored (ghost)']
 ASSUMPTIONS = ['AMAXS = 4 elements per array (object-size bound; the index itself is an arbitrary int)',
@@ -53,7 +57,7 @@ class Profile(Lower):
                 self.tagenum = [c['name'] for c in kids(f) if c.get('kind') == 'EnumConstantDecl']
             if f.get('kind') == 'FieldDecl':
                 fields[f.get('name')] = norm_type(qt(f))
-        for nm, ct, tag in ARRS:
+        for nm, ct, tag in ARRS + LOAD_ONLY:
             if nm not in fields or self.ctype_safe(fields[nm]) != 'vec_' + ct:
                 raise Unsupported('Value::%s is no longer a vector of %s (%s)' % (nm, ct, fields.get(nm)))
             if tag not in self.tagenum:
@@ -64,8 +68,8 @@ class Profile(Lower):
         out = ['enum { %s };' % ', '.join('BL_' + e for e in self.tagenum)]
         for t in sorted(set(ct for _, ct, _ in ARRS)):
             out.append('typedef struct { %s data[AMAXS]; size_t size; } vec_%s;' % (t, t))
-        out.append('typedef struct { int type; int intValue; long longValue; double floatValue; int bitValue; _Bool boolValue; bl_str stringValue; char charValue; %s } Value;'
-                   % ' '.join('vec_%s %s;' % (ct, nm) for nm, ct, _ in ARRS))
+        out.append('typedef struct { int type; int intValue; long longValue; double floatValue; int bitValue; _Bool boolValue; bl_str stringValue; char charValue; int qubit; %s } Value;'
+                   % ' '.join('vec_%s %s;' % (ct, nm) for nm, ct, _ in ARRS + LOAD_ONLY))
         return out
 
     def declref(self, n):
@@ -82,6 +86,8 @@ class Profile(Lower):
         sb = strip(base)
         if sb.get('kind') == 'DeclRefExpr' and sb['referencedDecl']['name'] == 'aassign' and n['name'] in ('line', 'column', 'index', 'value', 'collection'):
             return 'aassign_%s' % n['name']
+        if sb.get('kind') == 'DeclRefExpr' and sb['referencedDecl']['name'] == 'indexExpr' and n['name'] in ('line', 'column', 'index', 'collection'):
+            return 'indexExpr_%s' % n['name']
         if sb.get('kind') == 'DeclRefExpr' and sb['referencedDecl']['name'] == 'var' and n['name'] == 'name':
             return 'var_name'
         if self.ct(sb) == 'Value':
@@ -113,7 +119,16 @@ class Profile(Lower):
             return self.expr(args[0])
         if ct == 'Value' and not args:
             return 'astore_value_default()'
+        if ct == 'Value' and 2 <= len(args) <= 6:
+            a = [self.expr(x) for x in args] + ['0', '0.0', '0', '0', '0'][len(args) - 1:]
+            return 'astore_value_ctor(%s)' % ', '.join(a[:6])
         raise Unsupported('ctor %s/%d' % (qt(n), len(args)))
+
+    def initlist(self, n):
+        if self.ctype_safe(qt(n)) == 'Value' and 2 <= len(kids(n)) <= 6:
+            a = [self.expr(x) for x in kids(n)] + ['0', '0.0', '0', '0', '0'][len(kids(n)) - 1:]
+            return 'astore_value_ctor(%s)' % ', '.join(a[:6])
+        return super().initlist(n)
 
     def cast_other(self, n, ck, inner):
         if ck in ('UserDefinedConversion', 'ConstructorConversion'):
@@ -137,6 +152,8 @@ class Profile(Lower):
             return 'astore_assign(%s, %s)' % (self.expr(args[0]), self.expr(args[1]))
         if t == 'bl_ast' and name == 'get':
             return self.expr(obj)
+        if name == 'operator bool' and '_Bit_reference' in norm_type(qt(obj)):
+            return self.expr(obj)                 # vector<bool>::reference -> bool
         if t and t.startswith('vec_') and name == 'size':
             return 'VEC_SIZE(%s)' % self.expr(obj)
         raise Unsupported('member call %s on %s' % (name, qt(obj)))
@@ -168,10 +185,27 @@ def lower_regions(docs, prof):
         then2['inner'] = stmts[start:]
         d = dict(kind='FunctionDecl', name='array_store', type=dict(qualType='bloch::runtime::Value ()'), inner=[then2])
         h, lines = prof.func(d, cname='array_store', is_method=False)
-        return [(head, lines)]
+        out = [(head, lines)]
     except Unsupported as e:
         prof.region_unlowered = {'array_store': str(e)}
-        return [(head, None)]
+        out = [(head, None)]
+    hl = 'Value astore_array_load(int indexExpr_line, int indexExpr_column, bl_ast indexExpr_collection, bl_ast indexExpr_index)'
+    try:
+        ds = cxx2c.find_functions(docs, 'eval')
+        body = [k for k in kids(ds[0]) if k.get('kind') == 'CompoundStmt'][0]
+        n, cast = find_region(body, 'indexExpr')
+        if not any('IndexExpression' in c for c in cast):
+            raise Unsupported('region `indexExpr` is no longer the dynamic_cast<IndexExpression*> branch')
+        d = dict(kind='FunctionDecl', name='array_load', type=dict(qualType='bloch::runtime::Value ()'), inner=[kids(n)[2]])
+        h, lines = prof.func(d, cname='array_load', is_method=False)
+        lines = lines[:-1] + ['  return astore_value_default();   /* not reached: every path of the switch returns or raises */', '}']
+        out.append((hl, lines))
+    except Unsupported as e:
+        if not hasattr(prof, 'region_unlowered'):
+            prof.region_unlowered = {}
+        prof.region_unlowered['array_load'] = str(e)
+        out.append((hl, None))
+    return out
 
 
 def sel(fmt, sep=' : '):
@@ -185,19 +219,22 @@ def sel(fmt, sep=' : '):
 GHOSTS = r"""
 int bl_exc, bl_exc_line, bl_exc_col;
 #define EXC_RT BL_EXC(BL_Runtime)
-Value g_arr0, g_stored; int g_store_n; bl_str g_store_name; int g_evals; Value g_idxv, g_rhs; size_t ge;
+Value g_arr0, g_stored; int g_store_n; bl_str g_store_name; int g_evals; Value g_ev0, g_ev1; size_t ge;      /* ghost: the two sub-expression values in evaluation order */
+#define g_idxv g_ev0
+#define g_rhs g_ev1
 static inline Value astore_value_default(void) { Value v; v.type = BL_Void; return v; }
+static inline Value astore_value_ctor(int t, int i, double f, int b, bl_str s, char c) { Value v; v.type = t; v.intValue = i; v.floatValue = f; v.bitValue = b; v.stringValue = s; v.charValue = c; return v; }
 #ifndef NATIVE
 _Bool nondet_bool(void); Value nondet_Value(void);
-#define SIZES_OK(v) (""" + ' && '.join('(v).%s.size <= AMAXS' % nm for nm, _, _ in ARRS) + r""")
+#define SIZES_OK(v) (""" + ' && '.join('(v).%s.size <= AMAXS' % nm for nm, _, _ in ARRS + LOAD_ONLY) + r""")
 static inline Value astore_lookup(bl_str name) { return g_arr0; }
 /* evaluation of the index / the right-hand side: an arbitrary value (first call: the index, second: the value), or a Runtime error */
 static inline Value astore_eval(bl_ast e) {
   Value v = nondet_Value();
-  """ + ' '.join('if (v.%s.size > AMAXS) v.%s.size = AMAXS;' % (nm, nm) for nm, _, _ in ARRS) + r"""
+  """ + ' '.join('if (v.%s.size > AMAXS) v.%s.size = AMAXS;' % (nm, nm) for nm, _, _ in ARRS + LOAD_ONLY) + r"""
   if (!(v.floatValue > -2.0e9 && v.floatValue < 2.0e9)) v.floatValue = 0.0;      /* see ASSUMPTIONS */
   if (nondet_bool()) { bl_throw(BL_Runtime, 0, 0); return v; }
-  if (g_evals == 0) g_idxv = v; else g_rhs = v;
+  if (g_evals == 0) g_ev0 = v; else g_ev1 = v;
   if (g_evals < 10) g_evals = g_evals + 1;
   return v;
 }
@@ -229,7 +266,7 @@ CONTRACTS = {
     'array_store': {
         'contract': [
             R('bl_exc == 0 && SIZES_OK(g_arr0) && g_store_n == 0 && g_evals == 0 && ge < AMAXS'),
-            A('bl_exc, bl_exc_line, bl_exc_col, g_stored, g_store_n, g_store_name, g_evals, g_idxv, g_rhs'),
+            A('bl_exc, bl_exc_line, bl_exc_col, g_stored, g_store_n, g_store_name, g_evals, g_ev0, g_ev1'),
             E('eval.array_store.only_runtime_errors', 'bl_exc == 0 || bl_exc == EXC_RT', ['C12', 'C13']),
             # C12 / C07 (bounds checks): an index outside the array is a located Runtime error and nothing is stored
             E('eval.array_store.index_outside_the_array_is_a_located_runtime_error',
@@ -243,7 +280,41 @@ CONTRACTS = {
         ],
     },
 }
+def lsel(fmt, dflt):
+    """per-array-kind case expression over the loaded collection g_ev0"""
+    parts = []
+    for nm, ct, tag in ARRS + LOAD_ONLY:
+        vt, fld = PAYLOAD[nm]
+        f = fmt.replace('ARR', nm).replace('VTAG', 'BL_' + vt).replace('FLD', fld)
+        f = re.sub(r'EQ\((.*?), (.*?)\)', (r'__CPROVER_equal(\1, \2)' if ct == 'double' else r'(\1 == \2)'), f)
+        parts.append('g_ev0.type == BL_%s ? (%s)' % (tag, f))
+    return '(' + ' : '.join(parts) + ' : %s)' % dflt
+
+
+GHOSTS += '''
+/* ---- region array_load: collection = first evaluated value, index = second */
+#define LIDX (g_ev1.type == BL_Int ? g_ev1.intValue : (g_ev1.type == BL_Long ? (int)g_ev1.longValue : (g_ev1.type == BL_Bit ? g_ev1.bitValue : (int)g_ev1.floatValue)))
+#define LIDX_NUMERIC (g_ev1.type == BL_Int || g_ev1.type == BL_Long || g_ev1.type == BL_Bit || g_ev1.type == BL_Float)
+#define LLEN ''' + lsel('(long)g_ev0.ARR.size', '0') + '''
+#define IS_INDEXABLE (''' + ' || '.join('g_ev0.type == BL_%s' % tag for _, _, tag in ARRS + LOAD_ONLY) + ''')
+'''
+RET = '__CPROVER_return_value'
+CONTRACTS['array_load'] = {
+    'contract': [
+        R('bl_exc == 0 && g_evals == 0'),
+        A('bl_exc, bl_exc_line, bl_exc_col, g_evals, g_ev0, g_ev1'),
+        E('eval.array_load.only_runtime_errors', 'bl_exc == 0 || bl_exc == EXC_RT', ['C12', 'C13']),
+        # C12 / C07 (bounds checks): reading outside the array is a located Runtime error
+        E('eval.array_load.index_outside_the_array_is_a_located_runtime_error',
+          '(g_evals == 2 && LIDX_NUMERIC && IS_INDEXABLE && ((long)LIDX < 0 || (long)LIDX >= LLEN)) ==> (bl_exc == EXC_RT && bl_exc_line == indexExpr_line && bl_exc_col == indexExpr_column)', ['C12', 'C07']),
+        E('eval.array_load.only_arrays_are_indexed', '(bl_exc == 0) ==> (g_evals == 2 && IS_INDEXABLE && LIDX_NUMERIC && (long)LIDX >= 0 && (long)LIDX < LLEN)', ['C07', 'C12']),
+        # C07: the result is the element, with the element type's tag
+        E('eval.array_load.result_is_the_element', '(bl_exc == 0 && (long)LIDX >= 0 && (long)LIDX < AMAXS) ==> ' + lsel('%s.type == VTAG && EQ(%s.FLD, g_ev0.ARR.data[LIDX])' % (RET, RET), '0'), ['C07']),
+    ],
+}
 HARNESSES = [
+    dict(name='array_load', fn='array_load', replace=[], flags=[], props=['C12', 'C07', 'C13'], timeout=600,
+         canaries=[('bl_exc == 0', 'loaded'), ('bl_exc != 0 && g_evals == 2', 'refused after both operands were evaluated')]),
     dict(name='array_store', fn='array_store', replace=[], flags=[], props=['C12', 'C07', 'C13'], timeout=600,
          canaries=[('bl_exc == 0', 'stored'), ('bl_exc != 0 && g_evals == 2', 'refused after both operands were evaluated')]),
 ]
